@@ -10,6 +10,7 @@ import (
 	"strconv"
 	"strings"
 
+	"github.com/ohler55/ojg/asm"
 	"github.com/ohler55/ojg/jp"
 )
 
@@ -97,8 +98,16 @@ func renderTo(sb *strings.Builder, v any, on *onPath, depth int) {
 		sb.WriteString(fltText(t))
 	case string:
 		sb.WriteString("S(" + hexF(t) + ")")
+	case opaque:
+		sb.WriteString(string(t))
 	case jp.Expr:
 		sb.WriteString("P(" + hexF(t.String()) + ")")
+	case *asm.Fn: // only inside a plan that an execution has rewritten (cond compiles in place)
+		if t == nil {
+			sb.WriteString("?(nil *asm.Fn)")
+		} else {
+			renderTo(sb, t.Simplify(), on, depth+1)
+		}
 	case json.Number:
 		sb.WriteString("B(" + hexF(string(t)) + ")")
 	case []any:
@@ -159,6 +168,20 @@ func parseTree(s string) (any, error) {
 		return nil, fmt.Errorf("trailing %q", rest)
 	}
 	return v, nil
+}
+
+// opaque: an atom the order judge carries along without reading it (a path value P(…), a value of another
+// kind ?(…) such as a time.Time, a cycle mark C); only parseTreeLoose produces it, render writes it back.
+type opaque string
+
+var looseAtoms = false
+
+// parseTreeLoose is parseTree that also accepts the atoms P(…), ?(…) and C (as opaque values): results that
+// hold a time or a path value can then be compared structurally by the order judge.
+func parseTreeLoose(s string) (any, error) {
+	looseAtoms = true
+	defer func() { looseAtoms = false }()
+	return parseTree(s)
 }
 
 func mustTree(s string) any {
@@ -234,6 +257,18 @@ func parseT(s string) (any, string, error) {
 			t, err := unhexF(body)
 			return t, s[e+1:], err
 		}
+	case 'P', '?', 'C':
+		if !looseAtoms {
+			return nil, "", fmt.Errorf("bad node %q", s)
+		}
+		if s[0] == 'C' {
+			return opaque("C"), s[1:], nil
+		}
+		e := strings.IndexByte(s, ')')
+		if len(s) < 3 || s[1] != '(' || e < 0 {
+			return nil, "", fmt.Errorf("bad atom %q", s)
+		}
+		return opaque(s[:e+1]), s[e+1:], nil
 	case '[':
 		out := []any{}
 		s = s[1:]
